@@ -5,6 +5,8 @@ from fractions import Fraction
 
 VERIF = os.path.dirname(os.path.dirname(os.path.abspath(__file__)))
 REPO = os.environ.get('STOCKPYL_REPO', '/repo')
+# where evidence/ and replays/ are written (seeded-change runs redirect it so that /verif/evidence always describes the real tree)
+OUT = os.environ.get('VERIF_OUT', None)
 sys.path.insert(0, os.path.join(REPO, 'src'))
 LEAN_DIR = os.path.join(VERIF, 'lean')
 DRV = os.path.join(LEAN_DIR, '.lake', 'build', 'bin', 'drv')
@@ -338,13 +340,13 @@ def finish(rep, obligations, trusted_base, replay_only=False):
 	for fid, v in known_seen.items():
 		print('KNOWN-FINDING: property=%s %s [%s]' % (rep.pid, known[fid]['what'], fid))
 	rc = 0
-	os.makedirs(os.path.join(VERIF, 'replays'), exist_ok=True)
+	os.makedirs(os.path.join(OUT or VERIF, 'replays'), exist_ok=True)
 	if new:
 		rc = 1
 		# prefer a diff with a concrete failing input
 		new.sort(key=lambda v: 0 if v['oracle_fails'] else 1)
 		v = new[0]
-		path = os.path.join(VERIF, 'replays', '%s-%d-%d.json' % (rep.pid, rep.seed, len(new)))
+		path = os.path.join(OUT or VERIF, 'replays', '%s-%d-%d.json' % (rep.pid, rep.seed, len(new)))
 		doc = {'property': rep.pid, 'seed': rep.seed, 'tier': rep.tier, 'stream': v['stream'], 'what': v['what'],
 			   'case': jsonable(v['case']), 'python': jsonable(v['py']), 'model': jsonable(v['model']),
 			   'concrete_failing_input': bool(v['oracle_fails']),
@@ -377,7 +379,7 @@ def finish(rep, obligations, trusted_base, replay_only=False):
 	cov.update(rep.extra)
 	ev = {'property_id': rep.pid, 'tier': rep.tier, 'seed': rep.seed, 'level': 'proof', 'coverage': cov,
 		  'assumptions': rep.assumptions, 'wall_s': round(time.time() - rep.t0, 2), 'violations': len(new)}
-	os.makedirs(os.path.join(VERIF, 'evidence'), exist_ok=True)
-	with open(os.path.join(VERIF, 'evidence', rep.pid + '.json'), 'w') as fh:
+	os.makedirs(os.path.join(OUT or VERIF, 'evidence'), exist_ok=True)
+	with open(os.path.join(OUT or VERIF, 'evidence', rep.pid + '.json'), 'w') as fh:
 		json.dump(ev, fh, indent=1)
 	return rc
